@@ -71,6 +71,44 @@ theorem get_eq_spec (cfg : Cfg) (d : Desc) (key : Nat) (op : Op) (now : Int) (hw
       · intro _; rfl
       · intro h; cases h
 
+/-- which error a failing lookup returns: `ErrEmptyRing` exactly when the ring has no token -/
+theorem get_fail_kind (cfg : Cfg) (d : Desc) (key : Nat) (op : Op) (now : Int) (hwf : WFRing d) (hrf : 1 ≤ cfg.rf)
+    (hok : (specGet cfg op d key now).ok = false) :
+    get cfg d (sortedTokens d) key op now
+      = .error (if sortedTokens d = [] then .emptyRing else .tooManyUnhealthy) := by
+  by_cases hemp : sortedTokens d = []
+  · rw [if_pos hemp]
+    unfold C01.get getWith; rw [if_pos (by rw [hemp]; rfl)]
+  · rw [if_neg hemp]
+    have hlen : ¬ (sortedTokens d).length = 0 := fun h => hemp (List.length_eq_zero_iff.mp h)
+    rcases (get_eq_spec cfg d key op now hwf hrf).2 hok with e | e
+    · exfalso
+      unfold C01.get getWith at e
+      rw [if_neg hlen] at e
+      have hrfI : (if (cfg.rf : Int) ≤ 0 ∨ (cfg.rf : Int) < (cfg.rf : Int) then cfg.rf else (cfg.rf : Int).toNat) = cfg.rf := by
+        split
+        · rfl
+        · exact Int.toNat_natCast _
+      simp only [hrfI] at e
+      rw [if_neg (Nat.lt_irrefl _), walk_eq_spec cfg d key op hwf hrf] at e
+      have e' : C01.filter cfg op now cfg.rf (specWalked cfg op d key) = .error .emptyRing := e
+      rw [filter_exact] at e'
+      split at e' <;> cases e'
+    · exact e
+
+theorem get_emptyRing_iff (cfg : Cfg) (d : Desc) (key : Nat) (op : Op) (now : Int) (hwf : WFRing d) (hrf : 1 ≤ cfg.rf) :
+    get cfg d (sortedTokens d) key op now = .error .emptyRing ↔ sortedTokens d = [] := by
+  constructor
+  · intro h
+    cases hok : (specGet cfg op d key now).ok
+    · rw [get_fail_kind cfg d key op now hwf hrf hok] at h
+      by_cases hemp : sortedTokens d = []
+      · exact hemp
+      · rw [if_neg hemp] at h; cases h
+    · rw [(get_eq_spec cfg d key op now hwf hrf).1 hok] at h; cases h
+  · intro hemp
+    unfold C01.get getWith; rw [if_pos (by rw [hemp]; rfl)]
+
 /-- `walk_no_inconsistent` (feeds C05): on a well-formed ring the lookup never reports
 `ErrInconsistentTokensInfo` (nor panics). -/
 theorem walk_no_inconsistent (cfg : Cfg) (d : Desc) (key : Nat) (op : Op) (now : Int) (hwf : WFRing d) (hrf : 1 ≤ cfg.rf) :
